@@ -13,6 +13,11 @@
 #include <stdio.h>
 #define IORA_ASSERT(c, msg) do { if (!(c)) { fprintf(stderr, "shim precondition violated: %s\n", msg); abort(); } } while (0)
 #define IORA_ASSUME(c) do { } while (0)
+/* differential run (tools/diffrun.py): the extracted TU is compiled by gcc; CBMC primitives that shims use inside IORA_ASSERT
+ * conditions get native meanings (object identity is not checkable natively: true) */
+#define __CPROVER_same_object(a, b) 1
+#define __CPROVER_assume(c) ((void)0)
+#define __CPROVER_assert(c, msg) IORA_ASSERT(c, msg)
 #else
 #define IORA_ASSERT(c, msg) __CPROVER_assert((c), msg)
 #define IORA_ASSUME(c) __CPROVER_assume(c)
@@ -25,7 +30,7 @@ _Bool IORA_TRUE;
 #define IORA_MAX(a, b) ((a) < (b) ? (b) : (a))
 #define IORA_ADDR(x) (&(x))
 /* loop contracts are wrapped so that the bounded SEARCH build (no loop contracts, plain unwinding) can drop them */
-#ifdef IORA_NO_LOOP_CONTRACTS
+#if defined(IORA_NO_LOOP_CONTRACTS) || defined(IORA_NATIVE)
 #define IORA_LC(...)
 #else
 #define IORA_LC(...) __VA_ARGS__
